@@ -106,6 +106,8 @@ pub fn frame_set(name: &str) -> Vec<FrameSpec> {
             fcs_width: None,
             dict_tables: None,
         });
+        // a Dictionary_ID field that is present and zero ("no dictionary", legal): one more header byte to account for
+        v.push(FrameSpec { name: "did0".into(), win_desc: Some(0), cks: true, dict_id: Some(0), fcs: None, blocks: vec![Blk::Raw(fresh(9, 26)), Blk::Rle(3, 12)], dict: vec![], rep: [1, 4, 8], fcs_width: None, dict_tables: None });
         // repeat offsets right at the start of a frame: content depends on the initial history (1, 4, 8)
         v.push(plain(
             "rep_start",
@@ -284,7 +286,8 @@ pub fn fdframes(args: &[String]) {
     for s in &set {
         let mut b = build(s);
         if let Some(id) = s.dict_id {
-            if !dicts.iter().any(|d| d.0 == id) {
+            // an id of zero means "no dictionary" (RFC 8878 3.1.1.1.3)
+            if id != 0 && !dicts.iter().any(|d| d.0 == id) {
                 b.rerr = "dict".into();
                 b.valid = false;
             }
@@ -385,6 +388,8 @@ pub struct Outcome {
     pub violations: Vec<(usize, String)>,
     pub drift: Option<(usize, String)>,
     pub steps: usize,
+    /// one observation per program step (only when asked for): what the call returned and every accessor afterwards
+    pub obs: Vec<Value>,
 }
 
 struct Exec<'f> {
@@ -665,6 +670,12 @@ impl<'f> Exec<'f> {
 
 /// Run one program. mode: 0 = plain FrameDecoder, 1 = decoder owned by a StreamingDecoder; chunk = source fragmentation.
 fn run_program(prog: &[Value], frames: &[FrameInfo], mode: u8, chunk: usize) -> Outcome {
+    run_program_opts(prog, frames, mode, chunk, true, false)
+}
+
+/// use_pred = false: no predictions at all (only calls that are legal for the real state, property-level checks only);
+/// want_obs: record an observation per step and do not complete the frame at the end (differential runs)
+fn run_program_opts(prog: &[Value], frames: &[FrameInfo], mode: u8, chunk: usize, use_pred: bool, want_obs: bool) -> Outcome {
     let decp: *mut FrameDecoder = Box::into_raw(Box::new(FrameDecoder::new()));
     DICTS.with(|d| {
         for raw in d.borrow().iter() {
@@ -681,7 +692,7 @@ fn run_program(prog: &[Value], frames: &[FrameInfo], mode: u8, chunk: usize) -> 
         let args = s["args"].as_array().unwrap();
         let exp = &s["exp"];
         let au = |i: usize| args[i].as_u64().unwrap() as usize;
-        let exact = out.drift.is_none();
+        let exact = use_pred && out.drift.is_none();
         let mut viol: Vec<String> = vec![];
         let mut ret: Vec<Value> = vec![];
         let mut skipped = false;
@@ -765,6 +776,15 @@ fn run_program(prog: &[Value], frames: &[FrameInfo], mode: u8, chunk: usize) -> 
             out.violations.push((si, format!("panic: {}", panic_msg(p))));
             break;
         }
+        if want_obs {
+            if skipped {
+                out.obs.push(json!({"op": op, "skipped": true}));
+            } else {
+                let d = ex.dec_ref();
+                out.obs.push(json!({"op": op, "ret": ret, "finished": d.is_finished(), "can_collect": d.can_collect(), "consumed": d.bytes_read_from_source(),
+                    "blocks": d.blocks_decoded(), "handed_out": ex.delivered.len(), "sum": xxh64(&ex.delivered, 7) as u32}));
+            }
+        }
         if skipped {
             continue;
         }
@@ -840,7 +860,7 @@ fn run_program(prog: &[Value], frames: &[FrameInfo], mode: u8, chunk: usize) -> 
             break;
         }
     }
-    if out.violations.is_empty() {
+    if out.violations.is_empty() && !want_obs {
         let mut viol = vec![];
         let r = std::panic::catch_unwind(std::panic::AssertUnwindSafe(|| ex.complete(&mut viol)));
         if let Err(p) = r {
@@ -853,6 +873,68 @@ fn run_program(prog: &[Value], frames: &[FrameInfo], mode: u8, chunk: usize) -> 
     drop(ex.sd.take());
     unsafe { drop(Box::from_raw(decp)) };
     out
+}
+
+/// fddiff <frames.json> <programs.ndjson> <report.json> <stride>
+/// C07 as a differential statement: every part of a program that starts with a Reset on a USED decoder is run again on a
+/// fresh decoder; what every call returns and every accessor shows afterwards (finished, collectable, consumed, blocks,
+/// bytes handed out and their hash) must be the same in both runs.  No prediction of the model is involved, so any
+/// refactoring that treats fresh and reused decoders alike passes.
+pub fn fddiff(args: &[String]) {
+    quiet_panics();
+    let frames = load_frames(&args[0]);
+    let f = std::io::BufReader::new(std::fs::File::open(&args[1]).unwrap());
+    let stride: usize = args.get(3).and_then(|s| s.parse().ok()).unwrap_or(1);
+    let (mut nprog, mut nseg, mut bad, mut ncmp) = (0u64, 0u64, 0u64, 0u64);
+    let mut mism: Vec<Value> = vec![];
+    for (li, line) in f.lines().enumerate() {
+        if li % stride != 0 {
+            continue;
+        }
+        let prog: Vec<Value> = serde_json::from_str(&line.unwrap()).unwrap();
+        let resets: Vec<usize> = (0..prog.len()).filter(|i| prog[*i]["op"] == "Reset").collect();
+        if resets.iter().filter(|i| **i > 0).count() == 0 {
+            continue;
+        }
+        nprog += 1;
+        let has_sread = prog.iter().any(|s| s["op"] == "SRead");
+        for (mode, chunk) in [(if has_sread { 1u8 } else { 0u8 }, 0usize), (1, 3)] {
+            let whole = run_program_opts(&prog, &frames, mode, chunk, false, true);
+            if !whole.violations.is_empty() {
+                continue; // reported by the replay itself
+            }
+            for (k, &r) in resets.iter().enumerate() {
+                if r == 0 || r >= whole.obs.len() {
+                    continue;
+                }
+                let end = resets.get(k + 1).cloned().unwrap_or(prog.len()).min(whole.obs.len());
+                let seg = &prog[r..end];
+                nseg += 1;
+                let fresh = run_program_opts(seg, &frames, mode, chunk, false, true);
+                let mut n = fresh.obs.len().min(end - r);
+                // a Reset that is refused (unreadable header, window, dictionary) leaves a used decoder with what it had and a
+                // fresh one with nothing: only the refusal itself is comparable
+                let refused = fresh.obs.first().map(|o| o["ret"][0] == "err").unwrap_or(false);
+                if refused {
+                    n = n.min(1);
+                }
+                for j in 0..n {
+                    ncmp += 1;
+                    let same = if refused { fresh.obs[j]["ret"] == whole.obs[r + j]["ret"] } else { fresh.obs[j] == whole.obs[r + j] };
+                    if !same {
+                        bad += 1;
+                        if mism.len() < 12 {
+                            mism.push(json!({"program": li, "mode": mode, "chunk": chunk, "history": prog[..r].iter().map(|s| json!([s["op"], s["args"]])).collect::<Vec<_>>(),
+                                "segment": seg.iter().map(|s| json!([s["op"], s["args"]])).collect::<Vec<_>>(), "step_in_segment": j,
+                                "errors": [format!("after {} {}: a fresh decoder shows {} but the reused one {}", seg[j]["op"].as_str().unwrap(), seg[j]["args"], fresh.obs[j], whole.obs[r + j])]}));
+                        }
+                        break;
+                    }
+                }
+            }
+        }
+    }
+    write_json(&args[2], &json!({"programs_with_reuse": nprog, "segments_compared": nseg, "observations_compared": ncmp, "mismatches": bad, "first": mism}));
 }
 
 /// fdexec <frames.json> <programs.ndjson> <report.json>
